@@ -374,6 +374,59 @@ def cmd_review(a):
     print("reviewed", n)
 
 
+EXTRA = {"C13-A": ["C05"], "C08-A": ["C01"], "C09-A": ["C02"], "C09-B": ["C06"], "C13-D": ["C10"], "C14-C": ["C07", "C08", "C01"], "C07-C": ["C08", "C01"],
+         "C08-C": ["C15"], "C09-C": ["C14"], "C09-D": ["C02"], "C12-D": ["C10"], "C05-E": ["C01"], "C09-F": ["C03"], "C13-E": ["C18"], "C18-E": ["C15"]}
+
+
+def cmd_matrix(a):
+    """every seeded change against its property's check (and the extra ones listed), in scratch worktrees, in parallel; writes
+    seeded/detection.json (same content as bin/seedmatrix, which does it one by one on /repo itself)"""
+    sdir = os.path.join(V, "seeded")
+    ids = sorted(d for d in os.listdir(sdir) if os.path.exists(os.path.join(sdir, d, "patch.diff")))
+    if a.only:
+        ids = [i for i in ids if i in a.only.split(",") or i.split("-")[0] in a.only.split(",")]
+    jobs = [(sid, chk) for sid in ids for chk in [sid.split("-")[0]] + EXTRA.get(sid, [])]
+    base = 10
+    for k in range(a.workers):
+        worker_dirs(base + k)
+    import queue
+    q = queue.Queue()
+    for k in range(a.workers):
+        q.put(base + k)
+    results = {}
+
+    def job(j):
+        sid, chk = j
+        k = q.get()
+        w, v = os.path.join(SCR, "w%d" % k), os.path.join(SCR, "v%d" % k)
+        try:
+            subprocess.run(["git", "-C", w, "checkout", "-q", "--", "."], check=True)
+            ap = subprocess.run(["git", "-C", w, "apply", os.path.join(sdir, sid, "patch.diff")], capture_output=True, text=True)
+            if ap.returncode != 0:
+                res = {"check": chk, "tier": a.tier, "exit": 2, "violation_lines": 0, "note": "patch does not apply"}
+            else:
+                env = dict(os.environ, VP_RUN_REPO=w, VERIF_SEED="0")
+                p = subprocess.run([os.path.join(v, "bin", "check"), chk, a.tier], capture_output=True, text=True, env=env)
+                out = p.stdout + p.stderr
+                res = {"check": chk, "tier": a.tier, "exit": p.returncode, "violation_lines": len(re.findall(r"^VIOLATION ", out, re.M))}
+        finally:
+            revert(w)
+            subprocess.run(["git", "-C", w, "clean", "-fdq"], check=False)
+            q.put(k)
+        results.setdefault(sid, []).append(res)
+        print(sid, res, flush=True)
+    with ThreadPoolExecutor(a.workers) as ex:
+        list(ex.map(job, jobs))
+    path = os.path.join(sdir, "detection.json")
+    old = json.load(open(path)) if (a.only and os.path.exists(path)) else {}
+    for sid in results:
+        order = [sid.split("-")[0]] + EXTRA.get(sid, [])
+        old[sid] = sorted(results[sid], key=lambda r: order.index(r["check"]))
+    json.dump(dict(sorted(old.items())), open(path, "w"), indent=1)
+    missed = [sid for sid, rs in sorted(old.items()) if not any(r["exit"] == 1 for r in rs)]
+    print("seeds:", len(old), "not caught:", missed)
+
+
 def cmd_clean(a):
     for k in range(32):
         w = os.path.join(SCR, "w%d" % k)
@@ -393,9 +446,10 @@ def main():
     pp = sub.add_parser("patch"); pp.add_argument("patch"); pp.add_argument("ids"); pp.add_argument("tier", nargs="?", default="quick"); pp.add_argument("--worker", type=int, default=9)
     cr = sub.add_parser("cross"); cr.add_argument("id"); cr.add_argument("--workers", type=int, default=4); cr.add_argument("--redo", action="store_true"); cr.add_argument("--all", action="store_true"); cr.add_argument("--only", default="")
     rv = sub.add_parser("review"); rv.add_argument("id"); rv.add_argument("mutants"); rv.add_argument("text")
+    mx = sub.add_parser("matrix"); mx.add_argument("--workers", type=int, default=4); mx.add_argument("--tier", default="quick"); mx.add_argument("--only", default="")
     sub.add_parser("clean")
     a = ap.parse_args()
-    {"gen": cmd_gen, "run": cmd_run, "tests": cmd_tests, "report": cmd_report, "clean": cmd_clean, "patch": cmd_patch, "review": cmd_review, "cross": cmd_cross}[a.cmd](a)
+    {"gen": cmd_gen, "run": cmd_run, "tests": cmd_tests, "report": cmd_report, "clean": cmd_clean, "patch": cmd_patch, "review": cmd_review, "cross": cmd_cross, "matrix": cmd_matrix}[a.cmd](a)
 
 
 if __name__ == "__main__":
